@@ -61,8 +61,7 @@ def rule_1(ctx):
                                     'only write computed values')
                             continue
                         if x.attr in ('value', 'need_update'):
-                            is_range = isinstance(x.value, ast.Subscript) and isinstance(x.value.value, ast.Attribute) \
-                                and x.value.value.attr == 'ranges'
+                            is_range = c04._derives_from_map(x.value, fn, 'ranges')
                             if is_range:
                                 ctx.ok(x, f'{qual}: store range value')
                                 continue
